@@ -32,7 +32,7 @@ for pid in ids:
     })
 m = {
     "version": 1,
-    "setup_cmd": "cd /verif/engine && GOFLAGS=-mod=mod GOPROXY=off GOSUMDB=off GOTOOLCHAIN=local go build -o /verif/bin/gosym ./cmd/gosym",
+    "setup_cmd": "cd /verif/engine && GOFLAGS=-mod=mod GOPROXY=off GOSUMDB=off GOTOOLCHAIN=local go build -o /verif/bin/gosym ./cmd/gosym && /verif/bin/gosym -selftest 2000",
     "hooks": {"guard": "verif", "enable": "no source hooks are needed: harnesses are injected into /repo's packages through go/packages "
               "and `go test -overlay` overlays (files /repo/<pkg>/zz_verif_*.go exist only virtually); nothing under /repo is written",
               "baseline_off_cmd": "cd /repo && GOFLAGS=-mod=mod GOPROXY=off go test -json -vet=off -count=1 -timeout 25m ./...",
